@@ -222,3 +222,31 @@ example : serialize shipped (run shipped ops0 true {}
     = s "<a rel=\"nofollow\" title=\"x&amp;y\">t&copy;</a><br />" := by decide +kernel
 
 end FeedVerif.San
+
+/-! ### stage 2 of M-mixin: what `pop()` does to the value of a text construct (title, subtitle, rights, …)
+
+`contentOutput` is the model of the post-processing chain of `XMLParserMixin.pop` (mixin.py:531-616) with the sanitizer, the
+relative-URI resolver, `looks_like_html`, base64 and the back end's reference decoding as parameters; it is tied to the real `pop` on
+every run by the M-mixin correspondence (recorded answers of those five functions). -/
+
+namespace FeedVerif.Mixin
+
+/-- **text/plain is returned verbatim** (C13's last clause, C02's "character for character"): when the content type `pop()` ends
+with is not an HTML type, the element is not an element-level URI and the content is not base64, the stored value is the joined,
+stripped character data after the back end's reference decoding and the documented text repairs — the sanitizer and the relative-URI
+resolver are not consulted, whatever the options say. -/
+theorem plain_text_verbatim (o : Ops) (c : Core) (el out0 ty : Str)
+    (hty : finalType o c el out0 = some ty) (hplain : htmlTypes.contains (mapContentType ty) = false)
+    (hb : cpBase64 c = false) (hu : canBeRelativeUri.contains el = false) :
+    (contentOutput o c el out0).2 = o.fix (o.decodeEnt ((c.cp.map (·.type)).getD (S "xml")) out0) := by
+  unfold finalType contentOutput at hty
+  unfold contentOutput
+  simp only [hb, hu, Bool.false_eq_true, ↓reduceIte, Bool.false_and] at hty ⊢
+  rw [hty]
+  simp only [Option.getD_some, hplain, Bool.false_and, Bool.false_eq_true, ↓reduceIte]
+
+/-- non-vacuity: an Atom `type="text"` value that LOOKS like markup is neither guessed to be HTML nor handed to the (here: destructive) sanitizer / resolver -/
+example : (contentOutput { base := ⟨fun _ r => r, fun u => u, fun _ r => r⟩, join := (fun _ u => u), fix := id, loose := false, looksHtml := (fun _ => true), sanitize := (fun _ _ => Mixin.S "CLEAN"), resolveMarkup := (fun _ _ _ => Mixin.S "RESOLVED") }
+    { version := S "atom10", cp := some ⟨S "text/plain", none, "", false⟩ } (S "title") (S "<b>x</b> &amp; y")) = (some (S "text/plain"), S "<b>x</b> &amp; y") := by decide +kernel
+
+end FeedVerif.Mixin
